@@ -386,6 +386,25 @@ def m_set_extend(it, a, ty, callee):
     return UNIT
 
 
+def m_map_retain(it, a, ty, callee):
+    mp, f = a
+    m = it.load(mp)
+    keys, vals = [], []
+    for k, v in zip(m.keys, m.fields):
+        vc = Cell('val', v)
+        if it.branch(it.call_value(f, [Ptr(Cell('key', k)), Ptr(vc)], None)):
+            keys.append(k)
+            vals.append(vc.val)
+    it.store(mp, MapModel(keys, vals, m.kind))
+    return UNIT
+
+
+def m_set_from_iter(it, a, ty, callee):
+    cell = Cell('set', SetModel())
+    m_set_extend(it, [Ptr(cell), a[0]], ty, callee)
+    return cell.val
+
+
 def m_set_remove(it, a, ty, callee):
     sp, xp = a
     s = it.load(sp)
@@ -829,12 +848,14 @@ def install(it):
     A(r'<&?std::collections::(HashSet|BTreeSet)<.*> as std::cmp::PartialEq>::eq', m_eq)
     A(r'<&?std::collections::(HashSet|BTreeSet)<.*> as std::cmp::PartialEq>::ne', m_ne)
     A(r'<std::collections::(HashSet|BTreeSet)<.*> as std::iter::Extend<.*>>::extend::<.*>', m_set_extend)
+    A(r'<std::collections::(HashSet|BTreeSet)<.*> as std::iter::FromIterator<.*>>::from_iter::<.*>', m_set_from_iter)
     A(r'(?:std::collections::HashMap|indexmap::IndexMap)::<.*>::insert', m_map_insert)
     A(r'std::collections::HashMap::<.*>::remove::<.*>', m_map_remove)
     A(r'(?:std::collections::HashMap|indexmap::IndexMap)::<.*>::get::<.*>', m_map_get(False))
     A(r'(?:std::collections::HashMap|indexmap::IndexMap)::<.*>::get_mut::<.*>', m_map_get(True))
     A(r'std::collections::HashMap::<.*>::contains_key::<.*>', m_map_contains_key)
     A(r'std::collections::HashMap::<.*>::entry', m_map_entry)
+    A(r'std::collections::HashMap::<.*>::retain::<.*>', m_map_retain)
     A(r"std::collections::hash_map::Entry::<.*>::or_default", m_entry_or_default)
     A(r"std::collections::hash_map::OccupiedEntry::<.*>::(get|get_mut|into_mut)", m_occupied_get)
     A(r"std::collections::hash_map::OccupiedEntry::<.*>::insert", m_occupied_insert)
